@@ -135,76 +135,79 @@ func init() {
 // interrupt) while its pause signal is still unread; the downstream worker has acknowledged the
 // pause. Resume must still return: it has to take the downstream acknowledgement first.
 func pauseBackPressure(rounds int) string {
+	const pairs = 8 // a Resume that serves its subscribers one after the other deadlocks as soon as it reaches one upstream worker first
 	for r := 0; r < rounds; r++ {
 		pause.VerifReset()
 		ctx, cancel := context.WithCancel(context.Background())
-		ch := make(chan int) // unbuffered stage channel
-		var upAck, downAck atomic.Bool
-		ready := make(chan struct{}, 2)
-		go func() { // upstream
-			chans := pause.Subscribe()
-			defer pause.Unsubscribe(chans)
-			ready <- struct{}{}
-			for {
-				select {
-				case <-ctx.Done():
-					return
-				case <-chans.PauseCh:
-					upAck.Store(true)
+		var downAcks atomic.Int32
+		ready := make(chan struct{}, 2*pairs)
+		for p := 0; p < pairs; p++ {
+			ch := make(chan int) // unbuffered stage channel of this pair
+			go func() {          // upstream
+				chans := pause.Subscribe()
+				defer pause.Unsubscribe(chans)
+				ready <- struct{}{}
+				for {
 					select {
-					case chans.ResumeCh <- struct{}{}:
 					case <-ctx.Done():
 						return
-					}
-					upAck.Store(false)
-				default:
-					select { // hand the seed over: only a stop interrupts this
-					case <-ctx.Done():
-						return
-					case ch <- 1:
+					case <-chans.PauseCh:
+						select {
+						case chans.ResumeCh <- struct{}{}:
+						case <-ctx.Done():
+							return
+						}
+					default:
+						select { // hand the seed over: only a stop interrupts this
+						case <-ctx.Done():
+							return
+						case ch <- 1:
+						}
 					}
 				}
-			}
-		}()
-		go func() { // downstream
-			chans := pause.Subscribe()
-			defer pause.Unsubscribe(chans)
-			ready <- struct{}{}
-			for {
-				select {
-				case <-ctx.Done():
-					return
-				case <-chans.PauseCh:
-					downAck.Store(true)
+			}()
+			go func() { // downstream
+				chans := pause.Subscribe()
+				defer pause.Unsubscribe(chans)
+				ready <- struct{}{}
+				for {
 					select {
-					case chans.ResumeCh <- struct{}{}:
 					case <-ctx.Done():
 						return
+					case <-chans.PauseCh:
+						downAcks.Add(1)
+						select {
+						case chans.ResumeCh <- struct{}{}:
+						case <-ctx.Done():
+							return
+						}
+						downAcks.Add(-1)
+					case <-ch:
 					}
-					downAck.Store(false)
-				case <-ch:
 				}
-			}
-		}()
-		<-ready
-		<-ready
+			}()
+		}
+		for p := 0; p < 2*pairs; p++ {
+			<-ready
+		}
 		time.Sleep(2 * time.Millisecond)
 		pause.Pause()
-		// wait until the downstream worker waits for resume (the upstream one is then stuck in its send,
-		// or has acknowledged too — both are fine)
+		// wait until the downstream workers wait for resume (the upstream ones are then stuck in their send,
+		// or have acknowledged too — both are fine)
 		deadline := time.Now().Add(2 * time.Second)
-		for !downAck.Load() && time.Now().Before(deadline) {
+		for int(downAcks.Load()) < pairs && time.Now().Before(deadline) {
 			time.Sleep(200 * time.Microsecond)
 		}
 		done := make(chan struct{})
 		go func() { pause.Resume(); close(done) }()
 		select {
 		case <-done:
-		case <-time.After(2 * time.Second):
+		case <-time.After(3 * time.Second):
 			cancel()
-			return fmt.Sprintf("bad round=%d Resume() did not return within 2s: upstream worker blocked handing over a seed (pause signal unread), downstream worker waiting for resume", r)
+			return fmt.Sprintf("bad round=%d Resume() did not return within 3s: upstream workers blocked handing over a seed (pause signal unread), downstream workers waiting for resume", r)
 		}
 		cancel()
+		time.Sleep(time.Millisecond)
 	}
 	return "ok"
 }
